@@ -88,6 +88,8 @@ type Msg struct {
 	Trx  *protobufcompiled.TrxMsgGossip
 	// Delivered counts deliveries of this message (duplicates re-deliver the same message).
 	Delivered int
+	// reply carries the handler's answer back to the sender's (blocked) RPC call when the network is synchronous.
+	reply chan error
 }
 
 // Item returns the hash of the gossiped item.
@@ -123,6 +125,9 @@ type Net struct {
 	OnSend func(m *Msg)
 	// GetVertexCalls counts the atomic parent-fetch RPCs.
 	GetVertexCalls int
+	// Sync makes the gossip RPCs synchronous, as gRPC is: the sender's call returns only when the model delivers the
+	// message, with the error the receiving handler answered (otherwise calls return nil at once: fire-and-forget).
+	Sync bool
 }
 
 // NewNet wires the given nodes according to the undirected edge list (pairs of node names).
@@ -161,6 +166,9 @@ func (n *Net) Deliver(id int) string {
 	} else {
 		_, err = to.Gossip.Server().GossipTrx(context.Background(), proto.Clone(m.Trx).(*protobufcompiled.TrxMsgGossip))
 	}
+	if m.reply != nil && m.Delivered == 1 {
+		vsched.Send(m.reply, err) // capacity 1: never blocks; the sender's call returns with the handler's answer
+	}
 	if err != nil {
 		return "error"
 	}
@@ -182,12 +190,24 @@ func (s *stubClient) send(m *Msg) {
 }
 
 func (s *stubClient) GossipVrx(ctx context.Context, in *protobufcompiled.VrxMsgGossip, _ ...grpc.CallOption) (*emptypb.Empty, error) {
-	s.send(&Msg{Vrx: proto.Clone(in).(*protobufcompiled.VrxMsgGossip)})
-	return &emptypb.Empty{}, nil
+	return s.call(&Msg{Vrx: proto.Clone(in).(*protobufcompiled.VrxMsgGossip)})
 }
 
 func (s *stubClient) GossipTrx(ctx context.Context, in *protobufcompiled.TrxMsgGossip, _ ...grpc.CallOption) (*emptypb.Empty, error) {
-	s.send(&Msg{Trx: proto.Clone(in).(*protobufcompiled.TrxMsgGossip)})
+	return s.call(&Msg{Trx: proto.Clone(in).(*protobufcompiled.TrxMsgGossip)})
+}
+
+// call puts the message into the bag; on a synchronous network the calling task then waits for its delivery.
+func (s *stubClient) call(m *Msg) (*emptypb.Empty, error) {
+	if s.net.Sync && vsched.Active() {
+		m.reply = vsched.MakeChan[error](1)
+	}
+	s.send(m)
+	if m.reply != nil {
+		if err := vsched.Recv(m.reply); err != nil {
+			return nil, err
+		}
+	}
 	return &emptypb.Empty{}, nil
 }
 
